@@ -239,7 +239,7 @@ def h_history(ctx, pool, n_calls, first=None, sym=True, sigmas=(2, 3, 4, 7, 12))
         want = run_call(B, name)
         if not same_outcome(got, want):
             cls = lambda o: o[1] if o[0] == "raise" else "ok"  # noqa: E731
-            where = f"afterfail({failed[0]}/{failed[1]})" if failed else "nofail"
+            where = "afterfail" if failed else "nofail"
             ctx.fail(f"{where}:{kind}:{cls(got)}!={cls(want)}",
                      f"call #{k} {name} on the shared environment {'raised ' + got[1] if got[0] == 'raise' else 'returned'}"
                      f"{'' if got[0] == 'raise' else (' a different result' if want[0] == 'ok' else '')}, on a fresh environment it "
